@@ -1,0 +1,63 @@
+// SPDX-FileCopyrightText: 2022-present Intel Corporation
+//
+// SPDX-License-Identifier: Apache-2.0
+
+//go:build verif
+
+// Contracts for the deductive verifier in /verif (govc). Comment-only: this file contains no code
+// and is excluded from every build that does not set the "verif" tag.
+
+package transaction
+
+//@ import configapi "github.com/onosproject/onos-api/go/onos/config/v3"
+//@ import codes "google.golang.org/grpc/codes"
+//@ import errors "github.com/onosproject/onos-lib-go/pkg/errors"
+
+// C20, a per-step slice of the v3 protocol (the Order half of the TLA+ specification, one reconcile
+// step at a time): what one call of commitChange / applyChange may do to the transaction and to the
+// configuration cursors, for every state they are called in.
+//@ spec v3Ready(r *Reconciler, t *configapi.Transaction, c *configapi.Configuration) bool = r != nil && r.transactions != nil && r.configurations != nil && r.plugins != nil && r.topo != nil && r.conns != nil && t != nil && c != nil && v3PhasesPresent(t)
+//@ spec v3CommitState(t *configapi.Transaction) int = t.Status.Change.Commit.State
+//@ spec v3ApplyState(t *configapi.Transaction) int = t.Status.Change.Apply.State
+
+//@ func (*Reconciler).commitChange(r, ctx, transaction, configuration) (result, ok, err)
+//@   props C20
+//@   requires v3Ready(r, transaction, configuration) && transaction.ID.Index > 0
+// history invariant ASSUMED for this per-step slice (established by the PENDING step below, kept because only this
+// transaction's own commit moves the cursor from Index-1 to Index): an in-progress commit sits at the cursor
+//@   requires v3CommitState(transaction) == configapi.TransactionPhaseStatus_IN_PROGRESS ==> configuration.Committed.Change == transaction.ID.Index - 1 || configuration.Committed.Change == transaction.ID.Index
+//@   ensures {C20} commit-starts-in-log-order: old(v3CommitState(transaction)) == configapi.TransactionPhaseStatus_PENDING && v3CommitState(transaction) != configapi.TransactionPhaseStatus_PENDING ==> old(configuration.Committed.Change) == transaction.ID.Index - 1 && v3CommitState(transaction) == configapi.TransactionPhaseStatus_IN_PROGRESS
+//@   ensures {C20} commit-completes-only-with-the-cursor: v3CommitState(transaction) == configapi.TransactionPhaseStatus_COMPLETE && old(v3CommitState(transaction)) != configapi.TransactionPhaseStatus_COMPLETE ==> old(v3CommitState(transaction)) == configapi.TransactionPhaseStatus_IN_PROGRESS && configuration.Committed.Change == transaction.ID.Index && transaction.Status.Change.Ordinal == configuration.Committed.Ordinal
+//@   ensures {C20} values-committed-only-after-validation: configuration.Committed.Revision != old(configuration.Committed.Revision) ==> old(v3CommitState(transaction)) == configapi.TransactionPhaseStatus_IN_PROGRESS && lastGetPluginOK && validateCalls == old(validateCalls) + 1 && lastValidateAccepted && configuration.Committed.Revision == transaction.ID.Index && configuration.Committed.Ordinal == old(configuration.Committed.Ordinal) + 1 && configuration.Committed.Change == transaction.ID.Index && configuration.Committed.Index == transaction.ID.Index
+//@   ensures {C20} failed-commit-cancels-apply: v3CommitState(transaction) == configapi.TransactionPhaseStatus_FAILED && old(v3CommitState(transaction)) != configapi.TransactionPhaseStatus_FAILED ==> old(v3CommitState(transaction)) == configapi.TransactionPhaseStatus_IN_PROGRESS && v3ApplyState(transaction) == configapi.TransactionPhaseStatus_CANCELED && transaction.Status.Change.Commit.Failure != nil && configuration.Committed.Revision == old(configuration.Committed.Revision) && configuration.Committed.Ordinal == old(configuration.Committed.Ordinal)
+//@   ensures {C20} committed-cursors-only-move-to-this-transaction: (configuration.Committed.Change != old(configuration.Committed.Change) ==> configuration.Committed.Change == transaction.ID.Index && old(configuration.Committed.Change) < transaction.ID.Index) && (configuration.Committed.Index != old(configuration.Committed.Index) ==> configuration.Committed.Index == transaction.ID.Index) && (configuration.Committed.Target != old(configuration.Committed.Target) ==> configuration.Committed.Target == transaction.ID.Index) && configuration.Committed.Ordinal >= old(configuration.Committed.Ordinal)
+//@   ensures {C20} commit-touches-nothing-applied: configuration.Applied.Index == old(configuration.Applied.Index) && configuration.Applied.Ordinal == old(configuration.Applied.Ordinal) && configuration.Applied.Revision == old(configuration.Applied.Revision) && configuration.Applied.Target == old(configuration.Applied.Target) && deviceSetCalls == old(deviceSetCalls) && (v3ApplyState(transaction) != old(v3ApplyState(transaction)) ==> v3ApplyState(transaction) == configapi.TransactionPhaseStatus_CANCELED)
+
+// The one southbound write site of the v3 controller: verified on its own, used as a contract by applyChange and
+// applyRollback. What it may touch besides the device ghosts is the Rollback.Apply phase of the transaction
+// (its plugin-not-found branch records the failure there, also when it is called for a change).
+//@ func (*Reconciler).applyValues(r, ctx, transaction, configuration, values) (ok, err)
+//@   props C20
+//@   requires v3Ready(r, transaction, configuration)
+//@   modifies lastSetConnID, deviceSetFailures, deviceSetCalls, deviceCode, lastSetElectionLow, lastSetElectionHigh, lastSetHasArbitration, lastSetConn, lastSetRequest, lastTopoGetOK, lastConnGetOK, lastGetPluginOK, v3TxnStatusWrites, v3LastTxnWriteAtCfgWrites, transaction.ObjectMeta, transaction.Status.Rollback.Apply.State, transaction.Status.Rollback.Apply.Failure, transaction.Status.Rollback.Apply.End
+//@   ensures {C20} at-most-one-set: deviceSetCalls <= old(deviceSetCalls) + 1 && (ok ==> deviceSetCalls == old(deviceSetCalls) + 1) && (deviceSetCalls > old(deviceSetCalls) ==> ok)
+//@   ensures {C20} set-is-gated: deviceSetCalls > old(deviceSetCalls) ==> configuration.Status.State != configapi.ConfigurationStatus_SYNCHRONIZING && configuration.Applied.Term >= configuration.Status.Mastership.Term && configuration.Status.Mastership.Master != "" && v3TxnStatusWrites == old(v3TxnStatusWrites)
+//@   ensures {C20} set-carries-the-applied-term: deviceSetCalls > old(deviceSetCalls) ==> lastSetHasArbitration && lastSetElectionLow == configuration.Applied.Term && lastSetElectionHigh == 0 && lastSetConnID == configuration.Status.Mastership.Master
+//@   ensures {C20} set-error-is-the-device-answer: deviceSetCalls > old(deviceSetCalls) ==> (err == nil) == (deviceCode == codes.OK) && (err != nil ==> isTyped(err) && asType(err, "*errors.TypedError") != nil && errKind(err) == kindOfCode(deviceCode))
+//@   ensures errWF(err)
+
+//@ spec v3Refused(c int) bool = c != codes.OK && c != codes.Unavailable && c != codes.Canceled && c != codes.DeadlineExceeded && c != codes.PermissionDenied
+
+//@ func (*Reconciler).applyChange(r, ctx, transaction, configuration) (result, ok, err)
+//@   props C20
+//@   requires v3Ready(r, transaction, configuration) && transaction.ID.Index > 0
+//@   ensures {C20} apply-only-after-commit: old(v3CommitState(transaction)) != configapi.TransactionPhaseStatus_COMPLETE ==> v3ApplyState(transaction) == old(v3ApplyState(transaction)) && deviceSetCalls == old(deviceSetCalls) && v3CfgStatusWrites == old(v3CfgStatusWrites) && v3TxnStatusWrites == old(v3TxnStatusWrites)
+//@   ensures {C20} apply-starts-in-ordinal-order: old(v3ApplyState(transaction)) == configapi.TransactionPhaseStatus_PENDING && v3ApplyState(transaction) != configapi.TransactionPhaseStatus_PENDING ==> old(configuration.Applied.Ordinal) == transaction.Status.Change.Ordinal - 1 && (v3ApplyState(transaction) == configapi.TransactionPhaseStatus_IN_PROGRESS || v3ApplyState(transaction) == configapi.TransactionPhaseStatus_ABORTED)
+//@   ensures {C20} apply-behind-unapplied-change-aborts: old(v3ApplyState(transaction)) == configapi.TransactionPhaseStatus_PENDING && v3ApplyState(transaction) == configapi.TransactionPhaseStatus_IN_PROGRESS && old(configuration.Applied.Target) != transaction.ID.Index ==> old(configuration.Applied.Revision) >= transaction.Status.Rollback.Index
+//@   ensures {C20} device-contacted-only-in-progress: deviceSetCalls > old(deviceSetCalls) ==> deviceSetCalls == old(deviceSetCalls) + 1 && old(v3ApplyState(transaction)) == configapi.TransactionPhaseStatus_IN_PROGRESS && !(old(configuration.Applied.Ordinal) == transaction.Status.Change.Ordinal && old(configuration.Applied.Revision) == transaction.ID.Index) && configuration.Status.State != configapi.ConfigurationStatus_SYNCHRONIZING && old(configuration.Applied.Term) >= configuration.Status.Mastership.Term
+//@   ensures {C20} applied-revision-only-on-device-success: configuration.Applied.Revision != old(configuration.Applied.Revision) ==> configuration.Applied.Revision == transaction.ID.Index && deviceSetCalls == old(deviceSetCalls) + 1 && deviceCode == codes.OK && configuration.Applied.Index == transaction.ID.Index && configuration.Applied.Ordinal == transaction.Status.Change.Ordinal
+//@   ensures {C20} apply-completes-only-with-the-cursor: v3ApplyState(transaction) == configapi.TransactionPhaseStatus_COMPLETE && old(v3ApplyState(transaction)) != configapi.TransactionPhaseStatus_COMPLETE ==> old(v3ApplyState(transaction)) == configapi.TransactionPhaseStatus_IN_PROGRESS && configuration.Applied.Ordinal == transaction.Status.Change.Ordinal && configuration.Applied.Revision == transaction.ID.Index
+//@   ensures {C20} transient-device-error-fails-nothing: deviceSetCalls > old(deviceSetCalls) && !v3Refused(deviceCode) && deviceCode != codes.OK ==> v3ApplyState(transaction) == configapi.TransactionPhaseStatus_IN_PROGRESS && v3CfgStatusWrites == old(v3CfgStatusWrites) && v3TxnStatusWrites == old(v3TxnStatusWrites)
+//@   ensures {C20} refusal-fails-the-change-and-moves-the-cursor: deviceSetCalls > old(deviceSetCalls) && v3Refused(deviceCode) && err == nil ==> v3ApplyState(transaction) == configapi.TransactionPhaseStatus_FAILED && transaction.Status.Change.Apply.Failure != nil && configuration.Applied.Index == transaction.ID.Index && configuration.Applied.Ordinal == transaction.Status.Change.Ordinal && configuration.Applied.Revision == old(configuration.Applied.Revision)
+//@   ensures {C20} apply-touches-nothing-committed: configuration.Committed.Index == old(configuration.Committed.Index) && configuration.Committed.Change == old(configuration.Committed.Change) && configuration.Committed.Ordinal == old(configuration.Committed.Ordinal) && configuration.Committed.Revision == old(configuration.Committed.Revision) && configuration.Committed.Target == old(configuration.Committed.Target) && v3CommitState(transaction) == old(v3CommitState(transaction))
+//@   ensures {C20} applied-cursors-only-move-to-this-transaction: (configuration.Applied.Index != old(configuration.Applied.Index) ==> configuration.Applied.Index == transaction.ID.Index) && (configuration.Applied.Target != old(configuration.Applied.Target) ==> configuration.Applied.Target == transaction.ID.Index) && (configuration.Applied.Ordinal != old(configuration.Applied.Ordinal) ==> configuration.Applied.Ordinal == transaction.Status.Change.Ordinal)
